@@ -229,12 +229,20 @@ for cdir, pkg, groups in curves:
 		keepS := append([]fr.Element(nil), sc...)
 		var out Rep
 		var err error
+		// every other call the receiver already holds a point (an accumulator used again): the result replaces it
+		used := msmCalls.Add(1)%%2 == 0
 		if variant == "aff" {
 			var r %(A)s
+			if used {
+				r = gen
+			}
 			_, err = r.MultiExp(pts, sc, ecc.MultiExpConfig{NbTasks: nbTasks})
 			out = repAff(&r)
 		} else {
 			var r %(J)s
+			if used {
+				r.FromAffine(&gen)
+			}
 			_, err = r.MultiExp(pts, sc, ecc.MultiExpConfig{NbTasks: nbTasks})
 			out = repJac(&r)
 		}
@@ -254,12 +262,19 @@ for cdir, pkg, groups in curves:
 		pts, _ := build(idx, nil)
 		var cf fr.Element
 		cf.SetBigInt(coeff)
+		used := msmCalls.Add(1)%%2 == 0
 		if variant == "aff" {
 			var r %(A)s
+			if used {
+				r = gen
+			}
 			_, err := r.Fold(pts, cf, ecc.MultiExpConfig{NbTasks: nbTasks})
 			return repAff(&r), err
 		}
 		var r %(J)s
+		if used {
+			r.FromAffine(&gen)
+		}
 		_, err := r.Fold(pts, cf, ecc.MultiExpConfig{NbTasks: nbTasks})
 		return repJac(&r), err
 	}
